@@ -76,6 +76,25 @@ def split(B, have_H, is_left, halfway=False, shape=()):
     return r
 
 
+def root_init(B):
+    """the real `BrownianInterval.__init__` (no dt hint, tol = 0): the increment and space-time Levy area of the whole interval as
+    functions of the two noise draws"""
+    t0, t1 = B.t('t0'), B.t('t1')
+    X = [B.x('X1', ()), B.x('X2', ())]
+    saved, calls = bi._randn, []
+
+    def fake(size, dtype, device, seed):
+        calls.append(seed)
+        return X[len(calls) - 1]
+    bi._randn = fake
+    try:
+        bm = bi.BrownianInterval(t0=t0, t1=t1, size=(), dtype=torch.float64, entropy=5, levy_area_approximation=LA.space_time)
+    finally:
+        bi._randn = saved
+    W, H = bm._w_h
+    return {'W': W, 'H': H}
+
+
 def h_to_u(B):
     W, H, h = B.x('W', ()), B.x('H', ()), B.t('h')
     return {'U': bi._H_to_U(W, H, h)}
